@@ -64,7 +64,7 @@ func loadWorld(repo string) (*World, error) {
 	if nerr > 0 {
 		return nil, fmt.Errorf("%d package load errors", nerr)
 	}
-	prog, spkgs := ssautil.AllPackages(pkgs, ssa.InstantiateGenerics)
+	prog, spkgs := ssautil.AllPackages(pkgs, ssa.InstantiateGenerics|ssa.GlobalDebug)
 	prog.Build()
 	w := &World{prog: prog, pkgs: pkgs, spkgs: map[string]*ssa.Package{}, dts: map[string]*DT{},
 		sortMemo: map[types.Type]string{}, dynCtor: map[string]string{}, structOf: map[string]*types.Named{},
